@@ -223,7 +223,17 @@ Fixpoint convert (D : defs_t) (C : conv_t) (n : node) (d : doc) {struct d} : boo
           end
       | _ => true
       end
-  | _ => true
+  | _ =>
+      (* null where a struct is expected leaves the zero value: no member set, nothing non-empty
+         (anything else than null does not decode in the first place) *)
+      match n with
+      | NObj r => forallb (fun c => match c with
+                                    | CUnion _ rej => negb rej
+                                    | CNonEmpty _ => false
+                                    | CEach _ => true
+                                    end) (constrs_of C r)
+      | _ => true
+      end
   end.
 
 (* One configuration language: shapes + conversion table + the decoder flag found in the source *)
